@@ -1271,8 +1271,9 @@ bool QXmppMixManager::handlePubSubEvent(const QDomElement &element, const QStrin
 
         switch (event.eventType()) {
         case QXmppPubSubEventBase::Items: {
-            const auto item = event.items().constFirst();
-            Q_EMIT channelConfigurationUpdated(pubSubService, item);
+            if (const auto items = event.items(); !items.isEmpty()) {
+                Q_EMIT channelConfigurationUpdated(pubSubService, items.constFirst());
+            }
             break;
         }
         case QXmppPubSubEventBase::Retract:
@@ -1292,8 +1293,9 @@ bool QXmppMixManager::handlePubSubEvent(const QDomElement &element, const QStrin
 
         switch (event.eventType()) {
         case QXmppPubSubEventBase::Items: {
-            const auto item = event.items().constFirst();
-            Q_EMIT channelInformationUpdated(pubSubService, item);
+            if (const auto items = event.items(); !items.isEmpty()) {
+                Q_EMIT channelInformationUpdated(pubSubService, items.constFirst());
+            }
             break;
         }
         case QXmppPubSubEventBase::Retract:
